@@ -28,9 +28,11 @@ type SpecEnv struct {
 	skolems []*Term
 	pkg     *types.Package
 	useLocals bool
+	macroDepth int
 }
 
 func (ex *Exec) specEnv(fr *Frame, st, old *State, assume bool) *SpecEnv {
+	ex.goalLazy = nil
 	env := &SpecEnv{ex: ex, fr: fr, st: st, old: old, vars: map[string]Value{}, assume: assume, ctx: True, useLocals: true}
 	if fr != nil && fr.fn.Pkg != nil {
 		env.pkg = fr.fn.Pkg.Pkg
@@ -215,6 +217,42 @@ func (env *SpecEnv) eval(e ast.Expr) Value {
 		return env.sliceExpr(x)
 	case *ast.CallExpr:
 		return env.call(x)
+	case *ast.CompositeLit:
+		t := env.resolveType(x.Type)
+		if t == nil {
+			specErr("unknown type in composite literal %s", exprStr(x.Type))
+		}
+		st, ok := t.Underlying().(*types.Struct)
+		if !ok {
+			specErr("composite literal of non-struct type %s", t)
+		}
+		sv := zeroValue(t).(StV)
+		out := StV{Ty: t, F: append([]Value{}, sv.F...)}
+		for i, el := range x.Elts {
+			idx := i
+			val := el
+			if kv, isKV := el.(*ast.KeyValueExpr); isKV {
+				name := kv.Key.(*ast.Ident).Name
+				idx = -1
+				for j := 0; j < st.NumFields(); j++ {
+					if st.Field(j).Name() == name {
+						idx = j
+					}
+				}
+				if idx < 0 {
+					specErr("no field %s in %s", name, t)
+				}
+				val = kv.Value
+			}
+			v := env.coerce(env.eval(val), st.Field(idx).Type())
+			if sc, isSc := v.(Sc); isSc {
+				if w, _, isInt := intInfo(st.Field(idx).Type()); isInt && sc.T.Sort.Kind == SBV && sc.T.Sort.W != w {
+					specErr("field %s of %s: width mismatch", st.Field(idx).Name(), t)
+				}
+			}
+			out.F[idx] = retype(v, st.Field(idx).Type())
+		}
+		return out
 	}
 	specErr("unsupported expression %s (%T)", exprStr(e), e)
 	return nil
@@ -690,6 +728,29 @@ func (env *SpecEnv) call(x *ast.CallExpr) Value {
 		if v, handled := env.special(id.Name, x); handled {
 			return v
 		}
+		// specification macros of this package
+		if env.pkg != nil {
+			if m := env.ex.P.macros[env.pkg.Path()+":"+id.Name]; m != nil {
+				if len(x.Args) != len(m.Params) {
+					specErr("macro %s takes %d arguments", m.Name, len(m.Params))
+				}
+				if env.macroDepth > 8 {
+					specErr("macro expansion too deep at %s", m.Name)
+				}
+				n := *env
+				n.macroDepth++
+				n.vars = map[string]Value{}
+				for k, v := range env.vars {
+					n.vars[k] = v
+				}
+				for i, a := range x.Args {
+					n.vars[m.Params[i]] = env.eval(a)
+				}
+				v := n.eval(m.Body)
+				env.skolems = append(env.skolems, n.skolems[len(env.skolems):]...)
+				return v
+			}
+		}
 	}
 	// conversion
 	if t := env.resolveType(x.Fun); t != nil && len(x.Args) == 1 {
@@ -800,6 +861,73 @@ func (env *SpecEnv) special(name string, x *ast.CallExpr) (Value, bool) {
 		return iteValue(c, a, b), true
 	case "forall", "exists":
 		return env.quant(name, x), true
+	case "forallkey", "existskey":
+		return env.quantKey(name, x), true
+	case "local":
+		// local(x): the value of local variable x in the state being described (for hints in
+		// postconditions; contracts proper should not depend on locals)
+		n := *env
+		n.useLocals = true
+		return n.eval(x.Args[0]), true
+	case "using":
+		// using(t, F): F, with t offered as an instantiation term for the quantified facts
+		// available to the obligation being built
+		if !env.assume {
+			v := env.eval(x.Args[0])
+			if sc, ok := v.(Sc); ok {
+				t := sc.T
+				if sc.Ty != untypedInt && t.Sort.Kind == SBV && t.Sort.W != 64 {
+					t = toInt64(sc)
+				}
+				env.ex.goalHints = append(env.ex.goalHints, t)
+			}
+		}
+		return env.eval(x.Args[1]), true
+	case "callp1", "callp2", "callp3":
+		// callpN(param, args...): N-th result of the pure function-typed parameter
+		id, ok := x.Args[0].(*ast.Ident)
+		if !ok || env.fr == nil {
+			specErr("%s(param, args...)", name)
+		}
+		pv, ok := env.fr.params[id.Name]
+		if !ok {
+			specErr("%s: unknown parameter %s", name, id.Name)
+		}
+		sig, ok := pv.Type().Underlying().(*types.Signature)
+		if !ok {
+			specErr("%s: %s is not a function", name, id.Name)
+		}
+		var leaves []*Term
+		for i, a := range x.Args[1:] {
+			v := env.eval(a)
+			if i < sig.Params().Len() {
+				v = env.coerce(v, sig.Params().At(i).Type())
+				if sc, isSc := v.(Sc); isSc {
+					if w, _, isInt := intInfo(sig.Params().At(i).Type()); isInt && sc.T.Sort.Kind == SBV && sc.T.Sort.W != w {
+						specErr("%s: argument %d has the wrong width", name, i+1)
+					}
+				}
+			}
+			leaves = append(leaves, flatten(v)...)
+		}
+		var rt types.Type = sig.Results()
+		if sig.Results().Len() == 1 {
+			rt = sig.Results().At(0).Type()
+		}
+		ls := leavesOf(rt)
+		ts := make([]*Term, len(ls))
+		for i, l := range ls {
+			ts[i] = App(fmt.Sprintf("param|%s.%s|%d", fnKey(env.fr.fn), id.Name, i), l.Sort, leaves...)
+		}
+		res := fromLeaves(rt, ts)
+		n := int(name[5] - '1')
+		if tv, isT := res.(TupV); isT {
+			if n >= len(tv.E) {
+				specErr("%s: function has %d results", name, len(tv.E))
+			}
+			return tv.E[n], true
+		}
+		return res, true
 	case "len":
 		v := env.eval(x.Args[0])
 		switch b := v.(type) {
@@ -871,6 +999,101 @@ func (env *SpecEnv) special(name string, x *ast.CallExpr) (Value, bool) {
 	return nil, false
 }
 
+// valueFromKey rebuilds a value of map-key type kt from its concatenated key term.
+func valueFromKey(kt types.Type, key *Term) Value {
+	ls := leavesOf(kt)
+	pos := key.Sort.W
+	ts := make([]*Term, len(ls))
+	for i, l := range ls {
+		w := 1
+		if l.Sort.Kind == SBV {
+			w = l.Sort.W
+		}
+		t := Extract(pos-1, pos-w, key)
+		pos -= w
+		if l.Sort == BoolSort {
+			ts[i] = Eq(t, BVi(1, 1))
+		} else {
+			ts[i] = t
+		}
+	}
+	if len(ls) == 0 {
+		return fromLeaves(kt, nil)
+	}
+	return fromLeaves(kt, ts)
+}
+
+// quantKey handles forallkey(k, m, body) / existskey(k, m, body[, witness]): k ranges over
+// ALL values of the key type of map m (use has(m, k) in the body to restrict to present keys).
+func (env *SpecEnv) quantKey(kind string, x *ast.CallExpr) Value {
+	if len(x.Args) < 3 {
+		specErr("%s needs (var, map, body)", kind)
+	}
+	id, ok := x.Args[0].(*ast.Ident)
+	if !ok {
+		specErr("%s: first argument must be an identifier", kind)
+	}
+	mv, ok := env.eval(x.Args[1]).(Sc)
+	if !ok {
+		specErr("%s: second argument must be a map", kind)
+	}
+	mt, ok := mv.Ty.Underlying().(*types.Map)
+	if !ok {
+		specErr("%s: second argument must be a map", kind)
+	}
+	ks := keySort(mt.Key())
+	isForall := kind == "forallkey"
+	bodyAt := func(e *SpecEnv, k *Term) *Term {
+		n := *e
+		n.vars = map[string]Value{}
+		for kk, vv := range e.vars {
+			n.vars[kk] = vv
+		}
+		kv := valueFromKey(mt.Key(), k)
+		n.vars[id.Name] = kv
+		// strings among the key leaves are well-formed strings
+		wf := env.st.wf(kv)
+		b := n.evalBool(x.Args[2])
+		if isForall {
+			return Implies(wf, b)
+		}
+		return And(wf, b)
+	}
+	if !isForall && len(x.Args) == 4 && !env.assume {
+		w := env.coerce(env.eval(x.Args[3]), mt.Key())
+		return Sc{bodyAt(env, keyTerm(w)), tBool}
+	}
+	assertedPos := env.assume != env.neg
+	effUniversal := isForall == assertedPos
+	if !effUniversal {
+		k := Fresh("sk_"+id.Name, ks)
+		env.skolems = append(env.skolems, k)
+		return Sc{bodyAt(env, k), tBool}
+	}
+	guard := And(env.st.G, env.ctx)
+	snap := *env
+	snap.st = env.st.clone()
+	lf := &LazyForall{Guard: guard, Sort: ks, Desc: exprStr(x), Body: func(k *Term) *Term {
+		e2 := snap
+		e2.skolems = nil
+		t := bodyAt(&e2, k)
+		if !isForall {
+			t = Not(t)
+		}
+		return t
+	}}
+	if env.assume {
+		env.ex.addLazy(lf)
+	} else {
+		lf.Guard = env.ctx
+		env.ex.goalLazy = append(env.ex.goalLazy, lf)
+	}
+	if !isForall {
+		return Sc{False, tBool}
+	}
+	return Sc{True, tBool}
+}
+
 // quant handles forall(k, lo, hi, body) / exists(k, lo, hi, body[, witness]).
 func (env *SpecEnv) quant(kind string, x *ast.CallExpr) Value {
 	if len(x.Args) < 4 {
@@ -902,17 +1125,20 @@ func (env *SpecEnv) quant(kind string, x *ast.CallExpr) Value {
 		w := env.evalInt(x.Args[4])
 		return Sc{bodyAt(env, w), tBool}
 	}
-	// "universal" here means: behaves like a forall in a goal (to be proved for all k)
-	if env.assume != universal {
-		// goal-forall or assumed-exists: skolemise
+	_ = universal
+	// polarity of this subformula in the formula that is finally asserted to the solver:
+	// an assumed clause is asserted as is, a goal is asserted negated.
+	assertedPos := env.assume != env.neg
+	effUniversal := (kind == "forall") == assertedPos
+	if !effUniversal {
+		// effectively existential (assumed exists, or a forall that has to be proved):
+		// a fresh constant stands for the witness / arbitrary element
 		k := Fresh("sk_"+id.Name, IntSort)
 		env.skolems = append(env.skolems, k)
 		return Sc{bodyAt(env, k), tBool}
 	}
-	if !universal {
-		specErr("%s in a position that needs a witness: %s", kind, exprStr(x))
-	}
-	// assumed forall (or proved exists under negation): lazy instantiation
+	// effectively universal (assumed forall, a forall among the hypotheses of a goal, or an
+	// exists that has to be proved): ground instantiation at the index terms of the query
 	guard := And(env.st.G, env.ctx)
 	snap := *env
 	snap.st = env.st.clone()
@@ -925,7 +1151,13 @@ func (env *SpecEnv) quant(kind string, x *ast.CallExpr) Value {
 		}
 		return t
 	}}
-	env.ex.addLazy(lf)
+	if env.assume {
+		env.ex.addLazy(lf)
+	} else {
+		// belongs to the goal being built only
+		lf.Guard = env.ctx
+		env.ex.goalLazy = append(env.ex.goalLazy, lf)
+	}
 	if kind == "exists" {
 		return Sc{False, tBool}
 	}
